@@ -325,6 +325,8 @@ func c11Run(raw json.RawMessage, c *mc.Ctx) {
 				switch {
 				case to:
 					c.Violate("fertiliser-prediction-does-not-terminate "+zone, fmt.Sprintf("latitude %d, prediction date %s: the run did not end within 120 s", lat, pd), nil)
+					c.Sample(sp)
+					return // one non-terminating run per scenario is enough (each costs the whole deadline)
 				case code != 0:
 					c.Violate("fertiliser-prediction-kills-the-process "+zone, fmt.Sprintf("latitude %d, prediction date %s: process exit code %d: %s", lat, pd, code, tailStr(out, 300)), nil)
 				case strings.Contains(out, "[0] Error:"):
